@@ -10,6 +10,7 @@ import (
 	"io"
 	"runtime"
 	"runtime/debug"
+	"sort"
 	"strings"
 	"time"
 
@@ -741,5 +742,63 @@ func init() {
 			b = sched.Bounds{P: 1, F: 1, Env: 1}
 		}
 		return sched.Config{Bounds: b, Iterative: true, MaxSteps: 100000}, c11e2eBody
+	}})
+}
+
+// ---------------------------------------------------------------------------
+// C11 (I) every supported command with every argument shape through the whole stack (session, handlers, backend
+// clients and their filters, mini cluster), with transparent compression off and on (the compression filter
+// inspects and rewrites requests on their way to the backend).
+// oracle    no goroutine of the proxy panics; every request gets exactly one reply; a second connection is still served
+// ---------------------------------------------------------------------------
+
+func c11throughBody() {
+	compress := sched.Choose(sched.ClsInput, 2, "compression") == 1
+	part := sched.Choose(sched.ClsInput, 4, "part")
+	cl := cluster.New(2, 0, 2)
+	var cps *pbredis.Compression
+	if compress {
+		cps = c13cps(true, 8)
+	}
+	s := vfStartStack(cl, vfSvcConfig(0, cps, 0))
+	good := s.NewClient("good")
+	k1 := cl.KeyInGroup("k", 1, 0)
+	good.Do("SET", k1, "v")
+	bad := s.NewClient("bad")
+	big := strings.Repeat("z", 100)
+	argsets := [][]string{{}, {""}, {"0"}, {"x"}, {"k", "v"}, {"k", big}, {"k", "1", "v"}, {"k", "1", big}, {"k", "f"}, {"k", "f", big}, {"k", "f", big, "g"}, {"s", "1", "k"}, {"0", "MATCH"}, {"k", "v", "k2"}, {"k", "10"}}
+	names := []string{"scan", "eval", "mset", "mget", "del", "exists", "touch", "unlink"}
+	names = append(names, simpleCommands...)
+	sort.Strings(names)
+	n := 0
+	for ni, name := range names {
+		if ni%4 != part {
+			continue
+		}
+		for _, as := range argsets {
+			n++
+			args := append([]string{name}, as...)
+			if err := bad.Send(resp.Encode(resp.Cmd(args...))); err != nil {
+				sched.Fail("connection-closed-by-proxy / "+name, fmt.Sprintf("compression=%v, before %q: %v", compress, args, err))
+				return
+			}
+			sched.WaitQuiescent()
+			rs, _ := bad.Pending()
+			if len(rs) != 1 {
+				sched.Fail("not-exactly-one-reply / request through the whole stack", fmt.Sprintf("compression=%v, %q (%d arguments): %d replies", compress, name, len(as), len(rs)))
+				return
+			}
+		}
+	}
+	v, gerr := good.Do("GET", k1)
+	if gerr != nil || !resp.Equal(v, resp.BulkS("v")) {
+		sched.Fail("other-connection-not-served / after odd requests", fmt.Sprintf("compression=%v: GET on the well-behaved connection: %s %v", compress, v, gerr))
+	}
+	sched.SetOutcome(fmt.Sprintf("compression=%v part=%d requests=%d", compress, part, n))
+}
+
+func init() {
+	sched.Register(&sched.Scenario{Name: "C11/through-the-stack", Setup: func(tier string) (sched.Config, func()) {
+		return sched.Config{Bounds: sched.Bounds{}, Iterative: true, MaxSteps: 4000000}, c11throughBody
 	}})
 }
